@@ -241,15 +241,16 @@ Qed.
 Lemma do_delete_spec e k s b s1 : do_delete e k s = (b, s1) ->
   sto s1 = sto s \/ sto s1 = remove k (sto s).
 Proof.
-  unfold do_delete. destruct (faulty e s); intros H; injection H; intros <- _; cbn; auto.
+  unfold do_delete. destruct (faulty e s); [|destruct (efaulty e s)]; intros H; injection H; intros <- _; cbn; auto.
 Qed.
 
 Lemma do_store_spec e k n s b s1 : do_store e k n s = (b, s1) ->
   (b = false /\ sto s1 = sto s /\ lg s1 = Ev KStore k false :: lg s) \/
-  (b = true /\ sto s1 = put k n (sto s) /\ is_dir (sto s) k = false /\ lg s1 = Ev KStore k true :: lg s).
+  (sto s1 = put k n (sto s) /\ is_dir (sto s) k = false /\ lg s1 = Ev KStore k b :: lg s).
 Proof.
   unfold do_store. destruct (faulty e s); [intros H; injection H; intros <- <-; cbn; auto|].
-  destruct (is_dir (sto s) k) eqn:D; intros H; injection H; intros <- <-; cbn; auto 6.
+  destruct (is_dir (sto s) k) eqn:D; [intros H; injection H; intros <- <-; cbn; auto 6|].
+  destruct (efaulty e s); intros H; injection H; intros <- <-; cbn; auto 6.
 Qed.
 
 (** * Shapes of keys *)
@@ -287,20 +288,23 @@ Qed.
 
 (** * The invariant: the current storage is the initial one minus justified keys *)
 Section Safety.
-  Variables (o : opts) (now : Z) (s0 : store).
+  Variables (o : opts) (clk : nat -> Z) (s0 : store).
+
+  (** deleting k is justified at one of the readings of the clock *)
+  Definition jt (k : key) : Prop := exists i, justified o (clk i) s0 k = true.
 
   (** how a key may differ from the initial storage: not at all; gone and justified; or it was a
       directory node -- an emptied site folder -- and nothing is left below it *)
   Inductive kstate (cur : store) (k : key) : Prop :=
   | KSame : lookup cur k = lookup s0 k -> kstate cur k
-  | KJust : lookup cur k = None -> justified o now s0 k = true -> kstate cur k
+  | KJust : lookup cur k = None -> jt k -> kstate cur k
   | KFolder : lookup cur k = None -> lookup s0 k = Some Dir -> site_folderb k = true ->
               do_certs o = true -> gone_under cur k -> kstate cur k.
   Definition Inv (cur : store) : Prop := forall k, kstate cur k.
 
   Lemma Inv_remove x cur : Inv cur ->
     (forall k, covers x k = true ->
-       lookup cur k = None \/ justified o now s0 k = true \/
+       lookup cur k = None \/ jt k \/
        (lookup s0 k = Some Dir /\ site_folderb k = true /\ do_certs o = true /\ gone_under (remove x cur) k)) ->
     Inv (remove x cur).
   Proof.
@@ -332,7 +336,7 @@ Section Safety.
   Qed.
 
   (** a stale staple justifies deleting it and whatever lies under it *)
-  Lemma staple_justifies a v c : do_ocsp o = true -> child spec_ocsp a ->
+  Lemma staple_justifies now a v c : do_ocsp o = true -> child spec_ocsp a ->
     file s0 a = Some (v, c) -> spec_stale now c = true ->
     forall k, covers a k = true -> justified o now s0 k = true.
   Proof.
@@ -343,7 +347,7 @@ Section Safety.
   Qed.
 
   (** an expired certificate file in a site folder justifies deleting X.crt, X.key, X.json *)
-  Lemma cert_justifies a v c x : do_certs o = true -> site_assetb a = true ->
+  Lemma cert_justifies now a v c x : do_certs o = true -> site_assetb a = true ->
     seqb (path_ext a) spec_ext_crt = true -> file s0 a = Some (v, c) ->
     spec_expired now (grace o) c = true ->
     In x [a; trim_suffix spec_ext_crt a ++ spec_ext_key; trim_suffix spec_ext_crt a ++ spec_ext_json] ->
@@ -367,7 +371,7 @@ Section Safety.
 
     Lemma delete_keeps_inv k s b s1 : do_delete e k s = (b, s1) -> Inv (sto s) ->
       (forall k', covers k k' = true ->
-         lookup (sto s) k' = None \/ justified o now s0 k' = true \/
+         lookup (sto s) k' = None \/ jt k' \/
          (lookup s0 k' = Some Dir /\ site_folderb k' = true /\ do_certs o = true /\
           gone_under (remove k (sto s)) k')) ->
       Inv (sto s1).
@@ -377,7 +381,7 @@ Section Safety.
     Qed.
 
     Lemma staples_loop_inv ks : do_ocsp o = true -> Forall (child spec_ocsp) ks ->
-      forall s, Inv (sto s) -> Inv (sto (staples_loop e now ks s)).
+      forall s, Inv (sto s) -> Inv (sto (staples_loop e clk ks s)).
     Proof.
       intros Ho. induction ks as [|a r IH]; intros HF s HI; cbn [staples_loop]; [exact HI|].
       inversion HF as [|? ? Ha HF']; subst.
@@ -385,18 +389,18 @@ Section Safety.
       destruct (do_load e a s) as [res s1] eqn:L.
       destruct (do_load_spec _ _ _ _ _ L) as (E1 & Hok & _).
       destruct res as [v c| |]; try (apply IH; [assumption | rewrite E1; exact HI]).
-      destruct (stale_staple now c) eqn:St; [|apply IH; [assumption | rewrite E1; exact HI]].
+      destruct (stale_staple (rd clk s1) c) eqn:St; [|apply IH; [assumption | rewrite E1; exact HI]].
       destruct (do_delete e a s1) as [b s2] eqn:D. apply IH; [assumption|].
       apply (delete_keeps_inv _ _ _ _ D); [rewrite E1; exact HI|].
-      intros k' Ck. right; left.
+      intros k' Ck. right; left. exists (length (lg s1)).
       assert (Hf : file (sto s) a = Some (v, c)) by (unfold file; rewrite (Hok v c eq_refl); reflexivity).
-      apply (staple_justifies a v c Ho Ha (Inv_some _ _ _ _ HI Hf)); [|exact Ck].
+      apply (staple_justifies (rd clk s1) a v c Ho Ha (Inv_some _ _ _ _ HI Hf)); [|exact Ck].
       unfold stale_staple in St. unfold spec_stale. destruct (as_staple c); [|reflexivity].
       destruct consts_ok as (_ & _ & _ & _ & _ & Es & _). rewrite Es in St. exact St.
     Qed.
 
     Lemma delete_old_staples_inv s : do_ocsp o = true -> Inv (sto s) ->
-      Inv (sto (delete_old_staples e now s)).
+      Inv (sto (delete_old_staples e clk s)).
     Proof.
       intros Ho HI. unfold delete_old_staples.
       destruct (do_list e prefix_ocsp s) as [res s1] eqn:L.
@@ -408,7 +412,7 @@ Section Safety.
     Qed.
 
     Lemma delete_related_inv base sufs :
-      Forall (fun suf => forall k, covers (base ++ suf) k = true -> justified o now s0 k = true) sufs ->
+      Forall (fun suf => forall k, covers (base ++ suf) k = true -> jt k) sufs ->
       forall s, Inv (sto s) -> Inv (sto (delete_related e base sufs s)).
     Proof.
       induction sufs as [|x r IH]; intros HF s HI; cbn [delete_related]; [exact HI|].
@@ -419,7 +423,7 @@ Section Safety.
 
     Lemma assets_loop_inv assets : do_certs o = true ->
       forall sk, site_folder sk -> Forall (child sk) assets ->
-      forall s, Inv (sto s) -> Inv (sto (snd (assets_loop e now (grace o) assets s))).
+      forall s, Inv (sto s) -> Inv (sto (snd (assets_loop e clk (grace o) assets s))).
     Proof.
       intros Ho sk Hsk. induction assets as [|a r IH]; intros HF s HI; cbn [assets_loop]; [exact HI|].
       inversion HF as [|? ? Ha HF']; subst.
@@ -429,16 +433,19 @@ Section Safety.
       destruct (do_load_spec _ _ _ _ _ L) as (E1 & Hok & _).
       destruct res as [v c| |]; cbn [snd]; try (rewrite E1; exact HI).
       destruct (as_cert c) as [na|] eqn:Ac; cbn [snd]; [|rewrite E1; exact HI].
-      destruct (expired_cert now (grace o) c) eqn:Ex; [|apply IH; [assumption | rewrite E1; exact HI]].
+      destruct (expired_cert (rd clk s1) (grace o) c) eqn:Ex; [|apply IH; [assumption | rewrite E1; exact HI]].
       destruct (do_delete e a s1) as [b s2] eqn:D.
       assert (Hf : file (sto s) a = Some (v, c)) by (unfold file; rewrite (Hok v c eq_refl); reflexivity).
       apply (Inv_some _ _ _ _ HI) in Hf.
       destruct consts_ok as (Ec & Et & Er & Eg & _).
       rewrite Ec in Ext.
-      assert (Hx : spec_expired now (grace o) c = true).
+      assert (Hx : spec_expired (rd clk s1) (grace o) c = true).
       { unfold expired_cert in Ex. unfold spec_expired. rewrite Ac in *. rewrite Eg, cmp_ge_spec in Ex. exact Ex. }
-      pose proof (cert_justifies a v c) as CJ.
-      specialize (fun x => CJ x Ho (site_asset_shape _ _ Hsk Ha) Ext Hf Hx).
+      pose proof (cert_justifies (rd clk s1) a v c) as CJ0.
+      specialize (fun x => CJ0 x Ho (site_asset_shape _ _ Hsk Ha) Ext Hf Hx).
+      assert (CJ : forall x, In x [a; trim_suffix spec_ext_crt a ++ spec_ext_key; trim_suffix spec_ext_crt a ++ spec_ext_json] ->
+                   forall k, covers x k = true -> jt k).
+      { intros x Hin k Ck. exists (length (lg s1)). exact (CJ0 x Hin k Ck). }
       apply IH; [assumption|]. rewrite Et, Er.
       apply delete_related_inv.
       - repeat constructor; intros k; apply CJ; cbn; auto.
@@ -448,7 +455,7 @@ Section Safety.
 
     Lemma sites_loop_inv sites : do_certs o = true ->
       forall ik, child spec_certs ik -> Forall (child ik) sites ->
-      forall s, Inv (sto s) -> Inv (sto (snd (sites_loop e now (grace o) sites s))).
+      forall s, Inv (sto s) -> Inv (sto (snd (sites_loop e clk (grace o) sites s))).
     Proof.
       intros Ho ik Hik. induction sites as [|sk r IH]; intros HF s HI; cbn [sites_loop]; [exact HI|].
       inversion HF as [|? ? Hsk HF']; subst.
@@ -456,7 +463,7 @@ Section Safety.
       destruct (do_list e sk s) as [res s1] eqn:L1.
       destruct (do_list_spec _ _ _ _ _ L1) as (E1 & Hl1).
       destruct res as [assets|]; [|apply IH; [assumption | rewrite E1; exact HI]].
-      destruct (assets_loop e now (grace o) assets s1) as [ab s2] eqn:A.
+      destruct (assets_loop e clk (grace o) assets s1) as [ab s2] eqn:A.
       assert (HI2 : Inv (sto s2)).
       { change s2 with (snd (ab, s2)). rewrite <- A.
         apply (assets_loop_inv assets Ho sk); [exists ik; auto | | rewrite E1; exact HI].
@@ -485,14 +492,14 @@ Section Safety.
     Qed.
 
     Lemma issuers_loop_inv iss : do_certs o = true -> Forall (child spec_certs) iss ->
-      forall s, Inv (sto s) -> Inv (sto (snd (issuers_loop e now (grace o) iss s))).
+      forall s, Inv (sto s) -> Inv (sto (snd (issuers_loop e clk (grace o) iss s))).
     Proof.
       intros Ho. induction iss as [|ik r IH]; intros HF s HI; cbn [issuers_loop]; [exact HI|].
       inversion HF as [|? ? Hik HF']; subst.
       destruct (do_list e ik s) as [res s1] eqn:L1.
       destruct (do_list_spec _ _ _ _ _ L1) as (E1 & Hl1).
       destruct res as [sites|]; [|apply IH; [assumption | rewrite E1; exact HI]].
-      destruct (sites_loop e now (grace o) sites s1) as [ab s2] eqn:A.
+      destruct (sites_loop e clk (grace o) sites s1) as [ab s2] eqn:A.
       assert (HI2 : Inv (sto s2)).
       { change s2 with (snd (ab, s2)). rewrite <- A.
         apply (sites_loop_inv sites Ho ik Hik); [|rewrite E1; exact HI].
@@ -501,7 +508,7 @@ Section Safety.
     Qed.
 
     Lemma delete_expired_certs_inv s : do_certs o = true -> Inv (sto s) ->
-      Inv (sto (snd (delete_expired_certs e now (grace o) s))).
+      Inv (sto (snd (delete_expired_certs e clk (grace o) s))).
     Proof.
       intros Ho HI. unfold delete_expired_certs.
       destruct (do_list e prefix_certs s) as [res s1] eqn:L.
@@ -590,59 +597,59 @@ Qed.
 (** * The whole cleaning *)
 (** the storage afterwards: every terminal key is unchanged, or gone and justified, or it is
     last_clean.json holding the freshly written record *)
-Definition Post (o : opts) (now : Z) (s0 fin : store) : Prop :=
-  forall k, (file fin k = file s0 k \/ (file fin k = None /\ justified o now s0 k = true)) \/
-            (k = spec_last_clean /\ lookup fin k = Some (written now o)).
+Definition Post (o : opts) (clk : nat -> Z) (s0 fin : store) : Prop :=
+  forall k, (file fin k = file s0 k \/ (file fin k = None /\ jt o clk s0 k)) \/
+            (k = spec_last_clean /\ exists i, lookup fin k = Some (written (clk i) o)).
 
-Lemma interval_check_sto e o now s r s1 : interval_check e o now s = (r, s1) -> sto s1 = sto s.
+Lemma interval_check_sto e o clk s r s1 : interval_check e o clk s = (r, s1) -> sto s1 = sto s.
 Proof.
   unfold interval_check. destruct (0 <? interval o); [|intros H; injection H; intros <- _; reflexivity].
   destruct (do_load e clean_storage_key s) as [res s2] eqn:L.
   destruct (do_load_spec _ _ _ _ _ L) as (E & _).
   destruct res as [v c| |]; try (intros H; injection H; intros <- _; exact E).
   destruct (as_clean c) as [[ts i]|]; [|intros H; injection H; intros <- _; exact E].
-  destruct (cmp_holds clean_interval_cmp (now - ts) (interval o)); intros H; injection H; intros <- _; exact E.
+  destruct (cmp_holds clean_interval_cmp (rd clk s2 - ts) (interval o)); intros H; injection H; intros <- _; exact E.
 Qed.
 
 (** the storage afterwards, node by node: as [kstate], or last_clean.json freshly written --
     which happens only through a successful Store call ([stored]) and never onto a directory *)
-Inductive kpost (o : opts) (now : Z) (s0 fin : store) (stored : bool) (k : key) : Prop :=
-| PState : kstate o now s0 fin k -> kpost o now s0 fin stored k
-| PWritten : k = spec_last_clean -> lookup fin k = Some (written now o) -> stored = true ->
-             lookup s0 k <> Some Dir -> kpost o now s0 fin stored k.
-Definition PostN (o : opts) (now : Z) (s0 : store) (s' : st) : Prop :=
-  forall k, kpost o now s0 (sto s') (stored_ok (lg s')) k.
+Inductive kpost (o : opts) (clk : nat -> Z) (s0 fin : store) (stored : bool) (k : key) : Prop :=
+| PState : kstate o clk s0 fin k -> kpost o clk s0 fin stored k
+| PWritten i : k = spec_last_clean -> lookup fin k = Some (written (clk i) o) -> stored = true ->
+             lookup s0 k <> Some Dir -> kpost o clk s0 fin stored k.
+Definition PostN (o : opts) (clk : nat -> Z) (s0 : store) (s' : st) : Prop :=
+  forall k, kpost o clk s0 (sto s') (stored_any (lg s')) k.
 
 Lemma site_folderb_prefix k : site_folderb k = true -> has_prefix (spec_certs ++ [c_sl]) k = true.
 Proof.
   unfold site_folderb, has_prefix. destruct (strip_prefix (spec_certs ++ [c_sl]) k); [reflexivity | discriminate].
 Qed.
 
-Lemma clean_locked_postN e o now s0 s : Inv o now s0 (sto s) ->
-  PostN o now s0 (snd (clean_locked e o now s)).
+Lemma clean_locked_postN e o clk s0 s : Inv o clk s0 (sto s) ->
+  PostN o clk s0 (snd (clean_locked e o clk s)).
 Proof.
   intros HI. unfold clean_locked.
-  destruct (interval_check e o now s) as [ir s1] eqn:IC.
+  destruct (interval_check e o clk s) as [ir s1] eqn:IC.
   pose proof (interval_check_sto _ _ _ _ _ _ IC) as E1.
   destruct ir; cbn [snd]; try (intros k; apply PState; rewrite E1; exact (HI k)).
-  set (s2 := if do_ocsp o then delete_old_staples e now s1 else s1).
-  assert (HI2 : Inv o now s0 (sto s2)).
+  set (s2 := if do_ocsp o then delete_old_staples e clk s1 else s1).
+  assert (HI2 : Inv o clk s0 (sto s2)).
   { subst s2. destruct (do_ocsp o) eqn:Ho; [|rewrite E1; exact HI].
     apply delete_old_staples_inv; [exact Ho | rewrite E1; exact HI]. }
-  set (s3 := if do_certs o then snd (delete_expired_certs e now (grace o) s2) else s2).
-  assert (HI3 : Inv o now s0 (sto s3)).
+  set (s3 := if do_certs o then snd (delete_expired_certs e clk (grace o) s2) else s2).
+  assert (HI3 : Inv o clk s0 (sto s3)).
   { subst s3. destruct (do_certs o) eqn:Ho; [|exact HI2].
     apply delete_expired_certs_inv; [exact Ho | exact HI2]. }
-  destruct (do_store e clean_storage_key (written now o) s3) as [ok s4] eqn:S. cbn [snd].
-  destruct (do_store_spec _ _ _ _ _ _ S) as [(_ & E4 & _)|(_ & E4 & Hnd & L4)];
+  destruct (do_store e clean_storage_key (written (rd clk s3) o) s3) as [ok s4] eqn:S. cbn [snd].
+  destruct (do_store_spec _ _ _ _ _ _ S) as [(_ & E4 & _)|(E4 & Hnd & L4)];
     [intros k; apply PState; rewrite E4; exact (HI3 k)|].
   destruct consts_ok as (_ & _ & _ & _ & _ & _ & _ & Ek & _). rewrite Ek in *.
-  intros k. rewrite E4. pose proof (lookup_put spec_last_clean (written now o) (sto s3) k) as L.
+  intros k. rewrite E4. pose proof (lookup_put spec_last_clean (written (rd clk s3) o) (sto s3) k) as L.
   destruct (seqb spec_last_clean k) eqn:E.
-  - apply seqb_eq in E; subst k. apply PWritten; [reflexivity | exact L | rewrite L4; reflexivity |].
+  - apply seqb_eq in E; subst k. apply (PWritten _ _ _ _ _ _ (length (lg s3))); [reflexivity | exact L | rewrite L4; reflexivity |].
     intros D0. destruct (HI3 spec_last_clean) as [E'|N J|N D Sf Ho G].
     + unfold is_dir in Hnd. rewrite E', D0 in Hnd. discriminate.
-    + rewrite last_clean_not_justified in J. discriminate.
+    + destruct J as [i J]. rewrite last_clean_not_justified in J. discriminate.
     + vm_compute in Sf. discriminate.
   - apply PState. destruct (HI3 k) as [E'|N J|N D Sf Ho G].
     + apply KSame. congruence.
@@ -656,29 +663,29 @@ Proof.
       vm_compute in X. discriminate.
 Qed.
 
-Lemma Inv_init o now s0 : Inv o now s0 s0.
+Lemma Inv_init o clk s0 : Inv o clk s0 s0.
 Proof. intros k; apply KSame; reflexivity. Qed.
 
 (** node-level statement (covers the directory nodes of the FileStorage flavour) *)
-Theorem clean_post_nodes e o now s0 : PostN o now s0 (snd (clean e o now s0)).
+Theorem clean_post_nodes e o clk s0 : PostN o clk s0 (snd (clean e o clk s0)).
 Proof.
   unfold clean, do_lock. destruct (faulty e (St s0 [])); cbn [snd].
   - intros k; apply PState, KSame; reflexivity.
-  - destruct (clean_locked e o now _) as [r s2] eqn:C. cbn [snd].
+  - destruct (clean_locked e o clk _) as [r s2] eqn:C. cbn [snd].
     match type of C with clean_locked _ _ _ ?sx = _ =>
-      pose proof (clean_locked_postN e o now s0 sx (Inv_init o now s0)) as P end.
+      pose proof (clean_locked_postN e o clk s0 sx (Inv_init o clk s0)) as P end.
     rewrite C in P. cbn [snd] in P. intros k. specialize (P k). unfold do_unlock. cbn [sto lg logged].
-    unfold stored_ok in *. cbn [existsb ev_kind]. exact P.
+    unfold stored_any in *. cbn [existsb ev_kind]. exact P.
 Qed.
 
 (** the same for terminal keys *)
-Theorem clean_post e o now s0 : Post o now s0 (sto (snd (clean e o now s0))).
+Theorem clean_post e o clk s0 : Post o clk s0 (sto (snd (clean e o clk s0))).
 Proof.
-  intros k. destruct (clean_post_nodes e o now s0 k) as [[E|N J|N D _ _ _]|E W _ _].
+  intros k. destruct (clean_post_nodes e o clk s0 k) as [[E|N J|N D _ _ _]|i E W _ _].
   - left; left. unfold file. rewrite E. reflexivity.
   - left; right. split; [unfold file; rewrite N; reflexivity | exact J].
   - left; left. unfold file. rewrite N, D. reflexivity.
-  - right. split; assumption.
+  - right. split; [assumption | exists i; assumption].
 Qed.
 
 (** * Shape of the call log *)
@@ -707,7 +714,7 @@ Proof. unfold do_list. destruct (faulty e s); apply ext_one; reflexivity. Qed.
 Lemma do_stat_ext e k s : ext s (snd (do_stat e k s)).
 Proof. unfold do_stat. destruct (faulty e s); apply ext_one; reflexivity. Qed.
 Lemma do_delete_ext e k s : ext s (snd (do_delete e k s)).
-Proof. unfold do_delete. destruct (faulty e s); apply ext_one; reflexivity. Qed.
+Proof. unfold do_delete. destruct (faulty e s); [|destruct (efaulty e s)]; apply ext_one; reflexivity. Qed.
 
 Ltac ext_step :=
   match goal with
@@ -726,14 +733,14 @@ Ltac ext_step :=
   end.
 Ltac ext_close := repeat first [ apply ext_refl | eassumption | (eapply ext_trans; [eassumption|]) ].
 
-Lemma staples_loop_ext e now ks : forall s, ext s (staples_loop e now ks s).
+Lemma staples_loop_ext e clk ks : forall s, ext s (staples_loop e clk ks s).
 Proof.
   induction ks as [|a r IH]; intros s; cbn [staples_loop]; [apply ext_refl|].
   destruct (cancelled e s); [apply ext_refl|].
   ext_step. destruct r0 as [v c| |]; try (ext_close; apply IH).
-  destruct (stale_staple now c); [ext_step|]; ext_close; apply IH.
+  destruct (stale_staple _ c); [ext_step|]; ext_close; apply IH.
 Qed.
-Lemma delete_old_staples_ext e now s : ext s (delete_old_staples e now s).
+Lemma delete_old_staples_ext e clk s : ext s (delete_old_staples e clk s).
 Proof.
   unfold delete_old_staples. ext_step. destruct r as [ks|]; ext_close. apply staples_loop_ext.
 Qed.
@@ -742,43 +749,43 @@ Proof.
   induction sufs as [|x r IH]; intros s; cbn [delete_related]; [apply ext_refl|].
   ext_step. ext_close. apply IH.
 Qed.
-Lemma assets_loop_ext e now gr assets : forall s, ext s (snd (assets_loop e now gr assets s)).
+Lemma assets_loop_ext e clk gr assets : forall s, ext s (snd (assets_loop e clk gr assets s)).
 Proof.
   induction assets as [|a r IH]; intros s; cbn [assets_loop]; [apply ext_refl|].
   destruct (negb (seqb (path_ext a) clean_ext_crt)); [apply IH|].
   ext_step. destruct r0 as [v c| |]; cbn [snd]; ext_close.
   destruct (as_cert c); cbn [snd]; ext_close.
-  destruct (expired_cert now gr c); [ext_step|]; ext_close; [|apply IH].
+  destruct (expired_cert _ gr c); [ext_step|]; ext_close; [|apply IH].
   eapply ext_trans; [apply delete_related_ext | apply IH].
 Qed.
-Lemma sites_loop_ext e now gr sites : forall s, ext s (snd (sites_loop e now gr sites s)).
+Lemma sites_loop_ext e clk gr sites : forall s, ext s (snd (sites_loop e clk gr sites s)).
 Proof.
   induction sites as [|sk r IH]; intros s; cbn [sites_loop]; [apply ext_refl|].
   destruct (cancelled e s); [apply ext_refl|].
   ext_step. destruct r0 as [assets|]; [|ext_close; apply IH].
-  match goal with |- context [assets_loop e now gr assets ?x] =>
-    pose proof (assets_loop_ext e now gr assets x) as XA;
-    destruct (assets_loop e now gr assets x) as [ab s2] end. cbn [snd] in XA.
+  match goal with |- context [assets_loop e clk gr assets ?x] =>
+    pose proof (assets_loop_ext e clk gr assets x) as XA;
+    destruct (assets_loop e clk gr assets x) as [ab s2] end. cbn [snd] in XA.
   destruct ab; cbn [snd]; [ext_close|].
   ext_step. destruct r0 as [[|x xs]|]; try (ext_close; apply IH).
   ext_step. destruct r0; try (ext_close; apply IH).
   ext_step. destruct r0; cbn [snd]; ext_close. apply IH.
 Qed.
-Lemma issuers_loop_ext e now gr iss : forall s, ext s (snd (issuers_loop e now gr iss s)).
+Lemma issuers_loop_ext e clk gr iss : forall s, ext s (snd (issuers_loop e clk gr iss s)).
 Proof.
   induction iss as [|ik r IH]; intros s; cbn [issuers_loop]; [apply ext_refl|].
   ext_step. destruct r0 as [sites|]; [|ext_close; apply IH].
-  match goal with |- context [sites_loop e now gr sites ?x] =>
-    pose proof (sites_loop_ext e now gr sites x) as XA;
-    destruct (sites_loop e now gr sites x) as [ab s2] end. cbn [snd] in XA.
+  match goal with |- context [sites_loop e clk gr sites ?x] =>
+    pose proof (sites_loop_ext e clk gr sites x) as XA;
+    destruct (sites_loop e clk gr sites x) as [ab s2] end. cbn [snd] in XA.
   destruct ab; cbn [snd]; ext_close. apply IH.
 Qed.
-Lemma delete_expired_certs_ext e now gr s : ext s (snd (delete_expired_certs e now gr s)).
+Lemma delete_expired_certs_ext e clk gr s : ext s (snd (delete_expired_certs e clk gr s)).
 Proof.
   unfold delete_expired_certs. ext_step. destruct r as [iss|]; cbn [snd]; ext_close. apply issuers_loop_ext.
 Qed.
 
-Lemma interval_check_log e o now s r s1 : interval_check e o now s = (r, s1) ->
+Lemma interval_check_log e o clk s r s1 : interval_check e o clk s = (r, s1) ->
   exists pre, lg s1 = pre ++ lg s /\ (pre = [] \/ exists ok, pre = [Ev KLoad spec_last_clean ok]).
 Proof.
   unfold interval_check. destruct consts_ok as (_ & _ & _ & _ & _ & _ & _ & -> & _).
@@ -790,7 +797,7 @@ Proof.
   assert (G : exists pre, lg s2 = pre ++ lg s /\ (pre = [] \/ exists ok, pre = [Ev KLoad spec_last_clean ok])) by eauto.
   destruct res as [v c| |]; try (intros H; injection H; intros <- _; exact G).
   destruct (as_clean c) as [[ts i]|]; [|intros H; injection H; intros <- _; exact G].
-  destruct (cmp_holds clean_interval_cmp (now - ts) (interval o)); intros H; injection H; intros <- _; exact G.
+  destruct (cmp_holds clean_interval_cmp (rd clk s2 - ts) (interval o)); intros H; injection H; intros <- _; exact G.
 Qed.
 
 Lemma has_kind_app p a b : has_kind p (a ++ b) = has_kind p a || has_kind p b.
@@ -798,12 +805,12 @@ Proof. unfold has_kind. apply existsb_app. Qed.
 
 (** the calls made while the lock is held: either at most the Load of last_clean.json (skip /
     abort), or they end with the Store of last_clean.json whose success is the result *)
-Lemma clean_locked_log e o now s r s' : clean_locked e o now s = (r, s') ->
+Lemma clean_locked_log e o clk s r s' : clean_locked e o clk s = (r, s') ->
   exists body, lg s' = body ++ lg s /\ nolock body = true /\
     ((has_kind does_work body = false /\ r <> RErrStore /\ r <> RErrLock) \/
      (exists oks mid, body = Ev KStore spec_last_clean oks :: mid /\ r = if oks then RNil else RErrStore)).
 Proof.
-  unfold clean_locked. destruct (interval_check e o now s) as [ir s1] eqn:IC.
+  unfold clean_locked. destruct (interval_check e o clk s) as [ir s1] eqn:IC.
   destruct (interval_check_log _ _ _ _ _ _ IC) as [pre [Epre Hpre]].
   assert (Npre : nolock pre = true /\ has_kind does_work pre = false)
     by (destruct Hpre as [->|[ok ->]]; split; reflexivity).
@@ -816,15 +823,15 @@ Proof.
     - intros H; injection H; intros _ <-; intros r0 E; injection E; intros <-; split; discriminate. }
   destruct ir as [| |r0].
   - (* proceed *)
-    set (s2 := if do_ocsp o then delete_old_staples e now s1 else s1).
+    set (s2 := if do_ocsp o then delete_old_staples e clk s1 else s1).
     assert (X2 : ext s1 s2) by (subst s2; destruct (do_ocsp o); [apply delete_old_staples_ext | apply ext_refl]).
-    set (s3 := if do_certs o then snd (delete_expired_certs e now (grace o) s2) else s2).
+    set (s3 := if do_certs o then snd (delete_expired_certs e clk (grace o) s2) else s2).
     assert (X3 : ext s1 s3).
     { eapply ext_trans; [exact X2|]. subst s3. destruct (do_certs o); [apply delete_expired_certs_ext | apply ext_refl]. }
     destruct X3 as [new [Enew Hnew]].
     destruct consts_ok as (_ & _ & _ & _ & _ & _ & _ & -> & _).
     unfold do_store.
-    destruct (faulty e s3); [|destruct (is_dir (sto s3) spec_last_clean)];
+    destruct (faulty e s3); [|destruct (is_dir (sto s3) spec_last_clean); [|destruct (efaulty e s3)]];
       intros H; injection H; intros <- <-; cbn [lg logged];
       (eexists (_ :: new ++ pre); split; [rewrite Enew, Epre, app_assoc; reflexivity|]; split;
        [cbn; unfold nolock in *; rewrite forallb_app, Hnew; exact (proj1 Npre) | right; eexists; eexists; split; reflexivity]).
@@ -835,7 +842,7 @@ Proof.
 Qed.
 
 (** the whole call log of a cleaning (newest first) *)
-Theorem clean_log e o now s0 r s' : clean e o now s0 = (r, s') ->
+Theorem clean_log e o clk s0 r s' : clean e o clk s0 = (r, s') ->
   (r = RErrLock /\ lg s' = [Ev KLock spec_lock false] /\ sto s' = s0) \/
   (exists body u, lg s' = Ev KUnlock spec_lock u :: body ++ [Ev KLock spec_lock true] /\
      nolock body = true /\
@@ -845,7 +852,7 @@ Proof.
   unfold clean, do_lock. destruct consts_ok as (_ & _ & _ & _ & _ & _ & El & _). rewrite El.
   destruct (faulty e (St s0 [])).
   - intros H; injection H; intros <- <-. left. repeat split.
-  - destruct (clean_locked e o now _) as [r1 s2] eqn:C.
+  - destruct (clean_locked e o clk _) as [r1 s2] eqn:C.
     intros H; injection H; intros <- <-. right.
     destruct (clean_locked_log _ _ _ _ _ _ C) as [body [Eb [Nb Hb]]].
     exists body. eexists. unfold do_unlock. rewrite El. cbn [lg logged]. split; [rewrite Eb; reflexivity|].
@@ -870,9 +877,9 @@ Proof.
 Qed.
 
 (** the lock is taken first and released last; all storage calls lie in between *)
-Theorem clean_bracketed e o now s0 : bracketedb (rev (lg (snd (clean e o now s0)))) = true.
+Theorem clean_bracketed e o clk s0 : bracketedb (rev (lg (snd (clean e o clk s0)))) = true.
 Proof.
-  destruct (clean e o now s0) as [r s'] eqn:C. cbn [snd].
+  destruct (clean e o clk s0) as [r s'] eqn:C. cbn [snd].
   destruct (clean_log _ _ _ _ _ _ C) as [(_ & -> & _)|(body & u & -> & Nb & _)].
   - reflexivity.
   - cbn [rev]. rewrite rev_app_distr. cbn [rev app]. unfold bracketedb.
@@ -880,11 +887,11 @@ Proof.
 Qed.
 
 (** a successful cleaning either recorded itself or did no work at all (it was skipped) *)
-Theorem clean_records e o now s0 : let log := rev (lg (snd (clean e o now s0))) in
-  fst (clean e o now s0) = RNil -> stored_ok log = true \/ has_kind does_work log = false.
+Theorem clean_records e o clk s0 : let log := rev (lg (snd (clean e o clk s0))) in
+  fst (clean e o clk s0) = RNil -> stored_ok log = true \/ has_kind does_work log = false.
 Proof.
   cbn zeta. rewrite stored_ok_rev, has_kind_rev.
-  destruct (clean e o now s0) as [r s'] eqn:C. cbn [fst snd]. intros ->.
+  destruct (clean e o clk s0) as [r s'] eqn:C. cbn [fst snd]. intros ->.
   destruct (clean_log _ _ _ _ _ _ C) as [(E & _)|(body & u & -> & Nb & [(Hw & _)|(oks & mid & -> & Er)])].
   - discriminate.
   - right. change (Ev KUnlock spec_lock u :: body ++ [Ev KLock spec_lock true]) with ([Ev KUnlock spec_lock u] ++ body ++ [Ev KLock spec_lock true]).
@@ -893,12 +900,12 @@ Proof.
 Qed.
 
 (** whoever deletes something goes on to write the record (the Store call is made) *)
-Theorem clean_delete_then_record e o now s0 : let log := rev (lg (snd (clean e o now s0))) in
+Theorem clean_delete_then_record e o clk s0 : let log := rev (lg (snd (clean e o clk s0))) in
   has_kind (fun k => match k with KDelete => true | _ => false end) log = true ->
   has_kind (fun k => match k with KStore => true | _ => false end) log = true.
 Proof.
   cbn zeta. rewrite !has_kind_rev.
-  destruct (clean e o now s0) as [r s'] eqn:C. cbn [snd].
+  destruct (clean e o clk s0) as [r s'] eqn:C. cbn [snd].
   destruct (clean_log _ _ _ _ _ _ C) as [(_ & -> & _)|(body & u & -> & Nb & [(Hw & _)|(oks & mid & -> & Er)])].
   - cbn. discriminate.
   - change (Ev KUnlock spec_lock u :: body ++ [Ev KLock spec_lock true]) with ([Ev KUnlock spec_lock u] ++ body ++ [Ev KLock spec_lock true]).
@@ -910,18 +917,19 @@ Proof.
 Qed.
 
 (** a recently recorded cleaning: the storage is left exactly as it was and no work is done *)
-Theorem skip_when_recent e o now s0 : recent o now s0 = true ->
-  sto (snd (clean e o now s0)) = s0 /\
-  has_kind does_work (rev (lg (snd (clean e o now s0)))) = false.
+Theorem skip_when_recent e o clk s0 : (forall i, recent o (clk i) s0 = true) ->
+  sto (snd (clean e o clk s0)) = s0 /\
+  has_kind does_work (rev (lg (snd (clean e o clk s0)))) = false.
 Proof.
-  rewrite has_kind_rev. unfold recent. intros H. apply andb_true_iff in H. destruct H as [Hi Hf].
+  rewrite has_kind_rev. intros Hall. pose proof (Hall 2%nat) as H.
+  unfold recent in H. apply andb_true_iff in H. destruct H as [Hi Hf].
   unfold file in Hf. destruct (lookup s0 spec_last_clean) as [[v c|]|] eqn:L; try discriminate.
   destruct (as_clean c) as [[ts i]|] eqn:A; [|discriminate].
   destruct consts_ok as (_ & _ & _ & _ & Ei & _ & _ & Ek & _).
   unfold clean, do_lock. destruct (faulty e (St s0 [])); [split; reflexivity|].
   unfold clean_locked, interval_check. rewrite Hi, Ek. unfold do_load. cbn [sto logged].
   match goal with |- context [faulty e ?s] => destruct (faulty e s) end; [split; reflexivity|].
-  rewrite L, A, Ei. cbn [cmp_holds]. rewrite Hf. split; reflexivity.
+  rewrite L, A, Ei. cbn [cmp_holds]. unfold rd. cbn [lg logged length]. rewrite Hf. split; reflexivity.
 Qed.
 
 (** * Several cleanings in sequence (= concurrent cleaners, serialised by the lock) *)
@@ -955,25 +963,25 @@ Proof.
   - discriminate.
 Qed.
 
-Lemma clean_sub_store e o now s0 : sub_store (sto (snd (clean e o now s0))) s0.
+Lemma clean_sub_store e o clk s0 : sub_store (sto (snd (clean e o clk s0))) s0.
 Proof.
-  intros k Hk. destruct (clean_post e o now s0 k) as [[E|[E _]]|[E _]]; auto. contradiction.
+  intros k Hk. destruct (clean_post e o clk s0 k) as [[E|[E _]]|[E _]]; auto. contradiction.
 Qed.
 
 Theorem clean_seq_post runs : forall s0 k, k <> spec_last_clean ->
   file (clean_seq runs s0) k = file s0 k \/
   (file (clean_seq runs s0) k = None /\
-   exists r, In r runs /\ justified (r_opts r) (r_now r) s0 k = true).
+   exists r, In r runs /\ jt (r_opts r) (r_clk r) s0 k).
 Proof.
   induction runs as [|a rest IH]; intros s0 k Hk; cbn [clean_seq]; [left; reflexivity|].
-  set (s1 := sto (snd (clean (r_env a) (r_opts a) (r_now a) s0))).
+  set (s1 := sto (snd (clean (r_env a) (r_opts a) (r_clk a) s0))).
   destruct (IH s1 k Hk) as [E|[E [r [Hr J]]]].
-  - rewrite E. destruct (clean_post (r_env a) (r_opts a) (r_now a) s0 k) as [[E1|[E1 J1]]|[E1 _]].
+  - rewrite E. destruct (clean_post (r_env a) (r_opts a) (r_clk a) s0 k) as [[E1|[E1 J1]]|[E1 _]].
     + left; exact E1.
     + right. split; [exact E1|]. exists a. split; [left; reflexivity | exact J1].
     + contradiction.
   - right. split; [exact E|]. exists r. split; [right; exact Hr|].
-    apply (justified_mono _ _ s1); [apply clean_sub_store | exact J].
+    destruct J as [i J]. exists i. apply (justified_mono _ _ s1); [apply clean_sub_store | exact J].
 Qed.
 
 (** * Mutual exclusion on merged traces *)
@@ -1060,9 +1068,9 @@ Proof.
 Qed.
 
 (** the model's cleaner is such a thread *)
-Theorem clean_thread_ok e o now s0 : accepts false (rev (lg (snd (clean e o now s0)))) = true.
+Theorem clean_thread_ok e o clk s0 : accepts false (rev (lg (snd (clean e o clk s0)))) = true.
 Proof.
-  destruct (clean e o now s0) as [r s'] eqn:C. cbn [snd].
+  destruct (clean e o clk s0) as [r s'] eqn:C. cbn [snd].
   destruct (clean_log _ _ _ _ _ _ C) as [(_ & -> & _)|(body & u & -> & Nb & _)].
   - reflexivity.
   - cbn [rev]. rewrite rev_app_distr. cbn [rev app accepts ev_kind ev_key ev_ok]. rewrite seqb_refl. cbn [andb negb].
@@ -1076,7 +1084,7 @@ Qed.
 Fixpoint thread_log (runs : list (run * store)) : list event :=
   match runs with
   | [] => []
-  | (r, s) :: rest => rev (lg (snd (clean (r_env r) (r_opts r) (r_now r) s))) ++ thread_log rest
+  | (r, s) :: rest => rev (lg (snd (clean (r_env r) (r_opts r) (r_clk r) s))) ++ thread_log rest
   end.
 Lemma thread_log_ok runs : accepts false (thread_log runs) = true.
 Proof.
@@ -1209,31 +1217,32 @@ Qed.
 
 (** the certificate, key and metadata of a certificate that is not expired for the grace
     period (or whose X.crt is missing or unparseable) are never removed or altered *)
-Theorem live_assets_untouched e o now s0 base suf :
+Theorem live_assets_untouched e o clk s0 base suf :
   site_assetb (base ++ spec_ext_crt) = true -> In suf asset_exts ->
-  match file s0 (base ++ spec_ext_crt) with Some (_, c) => spec_expired now (grace o) c | None => false end = false ->
-  file (sto (snd (clean e o now s0))) (base ++ suf) = file s0 (base ++ suf).
+  (forall i, match file s0 (base ++ spec_ext_crt) with
+             | Some (_, c) => spec_expired (clk i) (grace o) c | None => false end = false) ->
+  file (sto (snd (clean e o clk s0))) (base ++ suf) = file s0 (base ++ suf).
 Proof.
   intros Hb Hs Hlive. pose proof (asset_key_prefix base suf Hb) as Hp.
-  destruct (clean_post e o now s0 (base ++ suf)) as [[E|[_ J]]|[E _]].
+  destruct (clean_post e o clk s0 (base ++ suf)) as [[E|[_ [i J]]]|[E _]].
   - exact E.
-  - exfalso. apply justified_inv in J. destruct J as [[_ J]|[_ J]].
+  - exfalso. specialize (Hlive i). apply justified_inv in J. destruct J as [[_ J]|[_ J]].
     + exact (pfx_disjoint _ (j_staple_prefix _ _ _ J) Hp).
     + rewrite (j_cert_asset _ _ _ _ _ Hb Hs J) in Hlive. discriminate.
   - exfalso. rewrite E in Hp. vm_compute in Hp. discriminate.
 Qed.
 
 (** a parseable staple that is not past NextUpdate is never removed or altered *)
-Theorem fresh_staple_untouched e o now s0 k v c : child spec_ocsp k ->
-  file s0 k = Some (v, c) -> spec_stale now c = false ->
-  file (sto (snd (clean e o now s0))) k = file s0 k.
+Theorem fresh_staple_untouched e o clk s0 k v c : child spec_ocsp k ->
+  file s0 k = Some (v, c) -> (forall i, spec_stale (clk i) c = false) ->
+  file (sto (snd (clean e o clk s0))) k = file s0 k.
 Proof.
   intros Hk Hf Hfresh.
   assert (Hp : has_prefix ocsp_pfx k = true).
   { destruct Hk as [x [-> _]]. apply has_prefix_spec. exists x. unfold ocsp_pfx. rewrite <- app_assoc. reflexivity. }
-  destruct (clean_post e o now s0 k) as [[E|[_ J]]|[E _]].
+  destruct (clean_post e o clk s0 k) as [[E|[_ [i J]]]|[E _]].
   - exact E.
-  - exfalso. apply justified_inv in J. destruct J as [[_ J]|[_ J]].
+  - exfalso. specialize (Hfresh i). apply justified_inv in J. destruct J as [[_ J]|[_ J]].
     + unfold j_staple in J. apply existsb_exists in J. destruct J as [a [_ Ja]].
       unfold j_staple_by in Ja. destruct (childb spec_ocsp a) eqn:Ch; [|discriminate].
       destruct (covers a k) eqn:C; [|discriminate].
@@ -1283,19 +1292,98 @@ Proof.
       destruct Hx as [s' [Hs' C]].
       exists b', v, c, na, s'. apply Z.leb_le in Ja. repeat split; assumption.
   - intros [[Ho (a & v & c & Ha & C & F & Hst)]|[Ho (base & v & c & na & suf & Sa & F & Ac & Hg & Hs & C)]].
-    + apply (staple_justifies o now s0 a v c Ho Ha F); [|exact C].
+    + apply (staple_justifies o s0 now a v c Ho Ha F); [|exact C].
       unfold spec_stale. destruct Hst as [->|[nu [-> Hnu]]]; [reflexivity | apply Z.ltb_lt; exact Hnu].
-    + apply (cert_justifies o now s0 (base ++ spec_ext_crt) v c (base ++ suf) Ho Sa); try assumption.
+    + apply (cert_justifies o s0 now (base ++ spec_ext_crt) v c (base ++ suf) Ho Sa); try assumption.
       * rewrite path_ext_crt. apply seqb_refl.
       * unfold spec_expired. rewrite Ac. apply Z.leb_le. exact Hg.
       * rewrite trim_suffix_app. cbn in Hs. destruct Hs as [<-|[<-|[<-|[]]]]; cbn; auto.
 Qed.
 
 (** keys outside ocsp/ and certificates/ (account data under acme/, locks, anything else) *)
-Theorem foreign_keys_untouched e o now s0 k :
+Theorem foreign_keys_untouched e o clk s0 k :
   has_prefix ocsp_pfx k = false -> has_prefix certs_pfx k = false -> k <> spec_last_clean ->
-  file (sto (snd (clean e o now s0))) k = file s0 k.
+  file (sto (snd (clean e o clk s0))) k = file s0 k.
 Proof.
-  intros H1 H2 H3. destruct (clean_post e o now s0 k) as [[E|[_ J]]|[E _]]; [exact E| |contradiction].
+  intros H1 H2 H3. destruct (clean_post e o clk s0 k) as [[E|[_ [i J]]]|[E _]]; [exact E| |contradiction].
   apply justified_in_namespace in J. destruct J as [J|J]; congruence.
+Qed.
+
+(** * Time: a justification stays one as the clock advances (a staple past NextUpdate stays past it,
+    a certificate expired for the grace period stays so) -- so with all readings of the clock at
+    most [t1], whatever is justified at a reading is justified at [t1] *)
+Lemma justified_mono_time o t t' s0 k : t <= t' ->
+  justified o t s0 k = true -> justified o t' s0 k = true.
+Proof.
+  intros Ht. unfold justified.
+  assert (St : j_staple t s0 k = true -> j_staple t' s0 k = true).
+  { unfold j_staple. rewrite !existsb_exists. intros [a [Hin Ja]]. exists a. split; [exact Hin|].
+    unfold j_staple_by in *. destruct (childb spec_ocsp a); [|discriminate]. destruct (covers a k); [|discriminate].
+    destruct (file s0 a) as [[v c]|]; [|discriminate]. unfold spec_stale in *.
+    destruct (as_staple c) as [nu|]; [|reflexivity]. apply Z.ltb_lt in Ja. apply Z.ltb_lt. lia. }
+  assert (Ce : j_cert t (grace o) s0 k = true -> j_cert t' (grace o) s0 k = true).
+  { unfold j_cert. rewrite !existsb_exists. intros [a [Hin Ja]]. exists a. split; [exact Hin|].
+    unfold j_cert_by in *. destruct (site_assetb a); [|discriminate].
+    destruct (seqb (path_ext a) spec_ext_crt); [|discriminate].
+    match type of Ja with (if ?b then _ else _) = true => destruct b; [|discriminate] end.
+    destruct (file s0 a) as [[v c]|]; [|discriminate]. unfold spec_expired in *.
+    destruct (as_cert c) as [na|]; [|discriminate]. apply Z.leb_le in Ja. apply Z.leb_le. lia. }
+  destruct (do_ocsp o); destruct (do_certs o).
+  - destruct (j_staple t s0 k) eqn:J1; [rewrite (St eq_refl); reflexivity|].
+    intros J. rewrite (Ce J). destruct (j_staple t' s0 k); reflexivity.
+  - destruct (j_staple t s0 k) eqn:J1; [rewrite (St eq_refl); reflexivity | discriminate].
+  - exact Ce.
+  - discriminate.
+Qed.
+Lemma jt_bounded o clk s0 k t1 : (forall i, clk i <= t1) -> jt o clk s0 k -> justified o t1 s0 k = true.
+Proof. intros Hb [i J]. exact (justified_mono_time _ _ _ _ _ (Hb i) J). Qed.
+
+(** * The record links one cleaning to the next: a cleaning that returned nil after doing work has
+    left (a reading of its clock, its instance) in last_clean.json; a cleaning that starts less than
+    its interval after every reading of that clock does nothing *)
+Lemma clean_locked_record e o clk s r s' : clean_locked e o clk s = (r, s') -> r = RNil ->
+  (exists pre, lg s' = pre ++ lg s /\ has_kind does_work pre = false) \/
+  (exists i, lookup (sto s') spec_last_clean = Some (written (clk i) o)).
+Proof.
+  unfold clean_locked. destruct (interval_check e o clk s) as [ir s1] eqn:IC.
+  destruct (interval_check_log _ _ _ _ _ _ IC) as [pre [Epre Hpre]].
+  destruct ir as [| |r0].
+  - set (s2 := if do_ocsp o then delete_old_staples e clk s1 else s1).
+    set (s3 := if do_certs o then snd (delete_expired_certs e clk (grace o) s2) else s2).
+    destruct (do_store e clean_storage_key (written (rd clk s3) o) s3) as [ok s4] eqn:S.
+    intros H; injection H; intros <- <-. intros Hr. destruct ok; [|discriminate]. right.
+    exists (length (lg s3)).
+    destruct consts_ok as (_ & _ & _ & _ & _ & _ & _ & Ek & _). rewrite Ek in S.
+    destruct (do_store_spec _ _ _ _ _ _ S) as [(Hb & _)|(E4 & _ & _)]; [discriminate|].
+    rewrite E4, lookup_put, seqb_refl. reflexivity.
+  - intros H; injection H; intros <- _. intros _. left. exists pre. split; [exact Epre|].
+    destruct Hpre as [->|[ok ->]]; reflexivity.
+  - intros H; injection H; intros _ <-. intros ->. exfalso.
+    revert IC. unfold interval_check. destruct (0 <? interval o); [|intros X; discriminate].
+    destruct (do_load e clean_storage_key s) as [res s2]. destruct res as [v c| |].
+    + destruct (as_clean c) as [[ts i]|]; [destruct (cmp_holds _ _ _)|]; intros X; discriminate.
+    + intros X; discriminate.
+    + intros X; discriminate.
+Qed.
+
+Theorem recorded_then_skip e1 o1 clk1 e2 o2 clk2 s0 :
+  fst (clean e1 o1 clk1 s0) = RNil ->
+  has_kind does_work (rev (lg (snd (clean e1 o1 clk1 s0)))) = true ->
+  0 < interval o2 -> (forall i j, clk2 i - clk1 j < interval o2) ->
+  let s1 := sto (snd (clean e1 o1 clk1 s0)) in
+  sto (snd (clean e2 o2 clk2 s1)) = s1 /\
+  has_kind does_work (rev (lg (snd (clean e2 o2 clk2 s1)))) = false.
+Proof.
+  intros Hr Hw Hi Hc s1. apply skip_when_recent. intros i.
+  assert (R : exists j, lookup s1 spec_last_clean = Some (written (clk1 j) o1)).
+  { subst s1. revert Hr Hw. rewrite has_kind_rev. unfold clean, do_lock.
+    destruct (faulty e1 (St s0 [])); [cbn; discriminate|].
+    destruct (clean_locked e1 o1 clk1 _) as [r s2] eqn:C. cbn [fst snd]. intros ->.
+    destruct (clean_locked_record _ _ _ _ _ _ C eq_refl) as [(pre & Ep & Hp)|R]; [|intros _; exact R].
+    unfold do_unlock. cbn [lg logged]. rewrite Ep. cbn [lg logged].
+    change (Ev KUnlock clean_lock_name (negb (faulty e1 s2)) :: pre ++ [Ev KLock clean_lock_name true])
+      with ([Ev KUnlock clean_lock_name (negb (faulty e1 s2))] ++ pre ++ [Ev KLock clean_lock_name true]).
+    rewrite !has_kind_app, Hp. cbn. discriminate. }
+  destruct R as [j R]. unfold recent, file. rewrite R. unfold written. cbn [as_clean].
+  apply andb_true_iff. split; apply Z.ltb_lt; [exact Hi | exact (Hc i j)].
 Qed.
